@@ -169,7 +169,12 @@ def h_make_functions(ctx):
                     overrides=dict(extract_function=extract_stub(ctx)))
     else:
         mf = fn.make_functions
-    fs = ctx.call(mf, r, list(vrs), bdd, label='make_functions')
+    arg = list(vrs)
+    if ctx.p.get('dup'):
+        # `vrs` is any collection of output bits: order and repetitions
+        # must not matter
+        arg = list(reversed(arg)) + [arg[0]]
+    fs = ctx.call(mf, r, arg, bdd, label='make_functions')
     w.oblige('make_functions.post: functions only for requested outputs',
              z3.BoolVal(set(fs) <= set(vrs)))
     w.oblige('make_functions.post: an output without a function is ignored by the relation',
